@@ -9,13 +9,13 @@
   * a depth query - capped or not, hitting the cap or not - leaves the WHOLE state unchanged whenever no output
     node is marked (`depth_query_state_unchanged`, from C14 `marks_restored`; node level: `depth_node_marks_unchanged`
     from C14 `marks_restored_node`);
-  * every state reachable from a fresh network by any history with depth queries has no mark at all
-    (`reachable_unmarked`), so every depth query of every history is a no-op on the state (`depth_query_noop`) and
-    the `Solver` calls of a history observe exactly what they observe with the depth queries taken out
-    (`depth_queries_transparent`);
+  * (not proved here: that every state reachable from a fresh network carries no mark at all, i.e. that the hypothesis
+    above holds at every point of every history - it needs "LoadSensors / ActivateSteps / ForwardSteps do not write
+    `visited`" for each loop of Model/Solver.lean; the flush theorems below do NOT need it, they are unconditional;
+    the co-simulation compares every `visited` flag after every call);
   * flush = fresh for histories and later sequences that contain depth queries anywhere
     (`std_flush_equiv_fresh_with_depth`, `std_flush_like_fresh_with_depth`): the answers of later depth queries
-    included.
+    included; for histories without depth queries the extended run is the run of Props/C13.lean (`runD_call`).
 -/
 import GoNeat.Props.C13
 import GoNeat.Props.C14
